@@ -7,6 +7,7 @@ CONSTANTS
   MaxSubs = 2
   MaxTopics = 1
   MaxWriters = 0
+  MaxCfts = 0
   MaxReaders = 4
   TopicNames = {"A"}
   MaxOps = 8
